@@ -278,10 +278,12 @@ func runC12(c *eng.Ctx) {
 		} else {
 			empty := false
 			if len(call.Args) >= 2 {
-				if cl, isC := ast.Unparen(call.Args[1]).(*ast.CompositeLit); isC && len(cl.Elts) == 0 {
+				// the content argument, also when it travels through a local (a shared constructor's parameter)
+				content := ast.Unparen(resolveLocal(info, f.Decl.Body, call.Args[1]))
+				if cl, isC := content.(*ast.CompositeLit); isC && len(cl.Elts) == 0 {
 					empty = true
 				}
-				if eng.IsNil(info, call.Args[1]) {
+				if eng.IsNil(info, content) {
 					empty = true
 				}
 			}
